@@ -17,7 +17,7 @@ import (
 
 const (
 	property = "C06"
-	rule     = "random DB programs (writes, flushes, automatic/seek/manual compactions on sub-ranges, trivial moves, transaction commits, reopen) x option lattice x 4 comparers; after EVERY installed version (commit hook) every live table is re-read and the C06 conditions are checked: file exists with recorded size, strictly ordered, recorded smallest/largest = first/last, level 0 newest first, deeper levels ordered and disjoint, shallower newer than deeper per user key; for EVERY table compaction the inputs must be closed on the version it was picked on (every next-level table overlapping the user-key hull of the source inputs is an input; at level 0 every level-0 table overlapping it too); non-trivial = a version with >=3 populated levels was installed; plus twin scenarios (writes, reopen, range compactions; run fault-free and with transient table faults armed before each range compaction; table contents per level, cuts and a full scan must agree; the builder of a whole-level compaction driven with and without faults must write the same tables) - a twin is non-trivial when an injected fault fired and the final version has >=2 levels; plus the LOOPS: directed scenarios (tiny CompactionTableSize / CompactionSourceLimitFactor / CompactionTotalSize, values far above the table size, 4 comparers) of write rounds each followed by CompactRange and/or a wait for quiescence under a watchdog - CompactRange must return within 20 s, afterwards every table overlapping the range must sit in ONE level >= 1 (judged on the version the retry loop ended with), background compaction must go idle (needCompaction false) within 20 s, a full scan must equal the map after each - a loop scenario is non-trivial when it ran a range compaction and reached a quiescent point; the same two oracles run after every CompactRange of the generated programs"
+	rule     = "random DB programs (writes, flushes, automatic/seek/manual compactions on sub-ranges, trivial moves, transaction commits, reopen) x option lattice x 4 comparers; after EVERY installed version (commit hook) every live table is re-read and the C06 conditions are checked: file exists with recorded size, strictly ordered, recorded smallest/largest = first/last, level 0 newest first, deeper levels ordered and disjoint, shallower newer than deeper per user key; for EVERY table compaction the inputs must be closed on the version it was picked on (every next-level table overlapping the user-key hull of the source inputs is an input; at level 0 every level-0 table overlapping it too); non-trivial = a version with >=3 populated levels was installed; plus twin scenarios (writes, reopen, range compactions; run fault-free and with transient table faults armed before each range compaction; table contents per level, cuts and a full scan must agree; the builder of a whole-level compaction driven with and without faults must write the same tables) - a twin is non-trivial when an injected fault fired and the final version has >=2 levels; plus the LOOPS: directed scenarios (tiny CompactionTableSize / CompactionSourceLimitFactor / CompactionTotalSize, values far above the table size, 4 comparers) of write rounds each followed by CompactRange and/or a wait for quiescence under a watchdog - CompactRange must return within 20 s, afterwards every table overlapping the range must sit in ONE level >= 1 (judged on the version the retry loop ended with), background compaction must go idle (needCompaction false) within 20 s, a full scan must equal the map after each - a loop scenario is non-trivial when it ran a range compaction and reached a quiescent point; the same two oracles run after every CompactRange of the generated programs; plus DEEP-TREE scenarios for retried compactions (dbh.RunDeep): three or more populated levels built with tiny table/level sizes, waves of Deletes whose markers sit above values stored in several tables two or more levels further down (the last wave stays in level 0), then the builder of every populated level driven failure-free and attempt by attempt under transient table faults placed with the failure-free run's write/sync/create counts (same tables required; KRetry cases with the cursors compaction.restore has to rewind), then ONE transient table write/sync/create fault armed for a real DB.CompactRange, healing, settling: every deleted key not-found, every other key at its last value, a full scan equal to the oracle, a snapshot taken after the deletions unchanged - a deep-tree scenario is non-trivial when a failed driven attempt left base-level cursors beyond its snapshot's and the real compaction's fault fired"
 	header   = "From GL Require Import Corr.C06Run."
 	checkWf  = true
 )
@@ -75,6 +75,18 @@ func main() {
 			fmt.Println("replay passes")
 			return
 		}
+		if ds, ok := dbh.LoadDeepSpec(a.Replay); ok {
+			for i := 0; i < 2; i++ {
+				res.Eval(fmt.Sprintf("deep-replay%d", i), true)
+				if dr := dbh.RunDeep(*ds, false); dr.Failure != "" {
+					fmt.Println("replay fails:", dr.Failure)
+					res.Violate(dr.Failure, ds)
+					return
+				}
+			}
+			fmt.Println("replay passes")
+			return
+		}
 		if ls, ok := dbh.LoadLoopSpec(a.Replay); ok {
 			for i := 0; i < 2; i++ {
 				res.Eval(fmt.Sprintf("loop-replay%d", i), true)
@@ -106,18 +118,23 @@ func main() {
 		return
 	}
 	nprog, nops := 480, 300
-	caps := dbh.PickCaps{Pick: 600, Finish: 600, Overlaps: 400, MemLevel: 200, Wf: 240, Build: 160, Retry: 96}
+	caps := dbh.PickCaps{Pick: 600, Finish: 600, Overlaps: 400, MemLevel: 200, Wf: 240, Build: 160, Retry: 144}
 	shards, kPerRun := 16, 4
 	ntwins := 96
+	ndeep := 40
+	if a.Thorough() {
+		ndeep = 400
+	}
 	if a.Thorough() {
 		nprog, nops = 2000, 1200
-		caps = dbh.PickCaps{Pick: 2400, Finish: 2400, Overlaps: 1600, MemLevel: 800, Wf: 1200, Build: 640, Retry: 384}
+		caps = dbh.PickCaps{Pick: 2400, Finish: 2400, Overlaps: 1600, MemLevel: 800, Wf: 1200, Build: 640, Retry: 576}
 		shards = 64
 		ntwins = 600
 	}
 	if strings.Contains(a.Extra, "search") && !a.Thorough() {
 		nprog *= 4
 		ntwins *= 4
+		ndeep *= 4
 	}
 	col := dbh.NewPickCol(caps)
 	nloops := 40
@@ -238,6 +255,7 @@ func main() {
 	}
 	close(tjobs)
 	twg.Wait()
+	runDeeps(a.Seed, ndeep, col, res)
 	cases, counts := col.Select(shards)
 	for k, v := range counts {
 		res.Count(k, v)
@@ -248,6 +266,46 @@ func main() {
 	}
 	cases = dbh.Interleave(cases, lcases, shards)
 	res.WriteCases(header, "c06case", "mismatches06", cases, shards)
+}
+
+// runDeeps runs the directed deep-tree scenarios (retried compactions over deletion markers whose values live two or more
+// levels down): builder drives (K + P) and one real range compaction under one transient fault (P).  A scenario is
+// non-trivial when a failed driven attempt left base-level cursors beyond its snapshot's and the real compaction's fault fired.
+func runDeeps(seed uint64, n int, col *dbh.PickCol, res *vlib.Result) {
+	// consecutive seeds give vlib.NewRNG consecutive splitmix states (the same stream shifted by one): spread them first
+	droot := vlib.NewRNG((seed + 0xdee9) * 0x2545f4914f6cdd1d)
+	jobs := make(chan dbh.DeepSpec)
+	var wg sync.WaitGroup
+	var nFail int32
+	for wk := 0; wk < 12; wk++ {
+		wg.Add(1)
+		go func() {
+			defer wg.Done()
+			for ds := range jobs {
+				dr := dbh.RunDeep(ds, true)
+				res.Eval(fmt.Sprintf("deep-%d", ds.DeepSeed), (ds.NoDrive || dr.Stats["deep_drives_with_cursors_rewound"] > 0) && dr.Stats["deep_compaction_fault_hits"] > 0)
+				res.Count("deep_scenarios", 1)
+				for k, v := range dr.Stats {
+					res.Count(k, v)
+				}
+				for _, c := range dr.Cases {
+					col.Add(c)
+				}
+				if dr.Failure != "" {
+					res.Count("deep_scenarios_failed", 1)
+					if atomic.AddInt32(&nFail, 1) <= 4 {
+						res.Violate(dr.Failure+fmt.Sprintf(" [deep-tree scenario seed %d snapshot=%v drives=%v]", ds.DeepSeed, ds.Snapshot, !ds.NoDrive), ds)
+					}
+				}
+			}
+		}()
+	}
+	for i := 0; i < n && atomic.LoadInt32(&nFail) < 4; i++ {
+		// one in five without the builder drives: only the real retried compaction and the DB-level oracle
+		jobs <- dbh.DeepSpec{DeepSeed: droot.Uint64() >> 1, Snapshot: i%4 == 3, NoDrive: i%5 == 4}
+	}
+	close(jobs)
+	wg.Wait()
 }
 
 // runLoops runs the directed loop scenarios; it returns the number of watchdog failures (calls that did not return,
